@@ -27,7 +27,7 @@ def ecoName (t : String) : String := String.ofList (t.toList.map fun c => if c =
 
 def flags (f : Fam) (xs : List (List Char)) : String :=
   let acc := String.join (xs.map fun s => boolStr (accepted f s))
-  let gv := String.join (xs.map fun s => boolStr (grammarValid f s))
+  let gv := String.join (xs.map fun s => boolStr (acceptedByCode f s))
   let kf := String.join (xs.map fun s => boolStr (knownClass f s))
   s!"acc={acc} gv={gv} kf={kf}"
 
